@@ -75,8 +75,11 @@ enum HostFaults {
 struct Case {
     scenario: Scenario,
     faults: HostFaults,
-    /// kill at the n-th matching syscall; None = no kill (used for dry runs and replays of recovery failures)
+    /// position of the kill point among the traced syscalls of the dry run; None = no kill (dry runs, replays of recovery failures)
     kill_at: Option<u32>,
+    /// how the kill point is addressed to strace, whose injection counters are PER SYSCALL: (syscall name, its k-th invocation)
+    #[serde(default)]
+    kill_call: Option<(String, u32)>,
 }
 
 struct Env {
@@ -94,7 +97,7 @@ struct RunResult {
     timed_out: bool,
 }
 
-fn run_child(env: &Env, key_dir: &Path, kill_at: Option<u32>, tag: &str) -> RunResult {
+fn run_child(env: &Env, key_dir: &Path, kill_call: Option<&(String, u32)>, tag: &str) -> RunResult {
     let log = env.work.join(format!("strace-{}.log", tag));
     let _ = std::fs::remove_file(&log);
     let mut cmd = Command::new("strace");
@@ -102,8 +105,9 @@ fn run_child(env: &Env, key_dir: &Path, kill_at: Option<u32>, tag: &str) -> RunR
     // effect (the readiness-polling calls epoll_wait/epoll_ctl would swamp the enumeration with idle points)
     const SET: &str = "%file,%network,read,write,writev,pwrite64,close,fsync,fdatasync,ftruncate,fcntl,dup,dup2,dup3,pipe2,lseek";
     cmd.arg("-f").arg("-qq").arg("-o").arg(&log).arg("-e").arg(format!("trace={}", SET));
-    if let Some(n) = kill_at {
-        cmd.arg("-e").arg(format!("inject={}:signal=SIGKILL:when={}", SET, n));
+    if let Some((call, k)) = kill_call {
+        // strace counts invocations separately for every syscall of an injection set: name the one call
+        cmd.arg("-e").arg(format!("inject={}:signal=SIGKILL:when={}", call, k));
     }
     cmd.arg(&env.exe)
         .env("VERIF_CHILD", "1")
@@ -252,11 +256,15 @@ fn experiment(env: &Env, c: &Case, stats: &mut Stats) -> Result<(bool, String), 
         });
     }
     let latched_before = env.host.with(|s| s.latched.clone());
-    let r = run_child(env, &key_dir, c.kill_at, "kill");
+    let r = run_child(env, &key_dir, c.kill_call.as_ref(), "kill");
     if r.timed_out {
         return Err(("inconclusive".into(), "crash run exceeded its watchdog".into()));
     }
     let kill_line = r.trace.iter().rev().find(|l| !l.contains("+++") && !l.contains("---")).cloned().unwrap_or_default();
+    if std::env::var("VERIF_C08_DEBUG").is_ok() {
+        let files: Vec<(String, u64)> = std::fs::read_dir(&key_dir).map(|rd| rd.flatten().map(|e| (e.file_name().to_string_lossy().to_string(), e.metadata().map(|m| m.len()).unwrap_or(0))).collect()).unwrap_or_default();
+        eprintln!("[c08-debug] {:?} killed={} exit={:?} kill_line={} files={:?}", c, r.killed, r.exit, kill_line, files);
+    }
     let after_acquire = env.host.with(|s| s.counters.acquire_ok) > 0;
     let attest_answered = env.host.with(|s| s.counters.attest_ok) > 0;
     let nontrivial = (r.killed && after_acquire && !attest_answered) || damaged;
@@ -419,7 +427,7 @@ fn main() {
                 continue;
             }
             // dry run under strace without injection: how many matching syscalls, and where the first status poll starts
-            let dry = Case { scenario: *sc, faults: f.clone(), kill_at: None };
+            let dry = Case { scenario: *sc, faults: f.clone(), kill_at: None, kill_call: None };
             let key_dir = env.work.join("keys");
             if let Err(e) = prepare(&env, &dry, &key_dir) {
                 stats.inconclusive.push(format!("{:?}/{:?}: {}", sc, f, e));
@@ -451,6 +459,34 @@ fn main() {
             let lo = first_poll.saturating_sub(8).max(1);
             let hi = total + 3;
             let all: Vec<u32> = (lo..=hi).collect();
+            // every syscall of the dry run that touches the key directory (by path, or by a descriptor opened there):
+            // the quick tier always kills at each of them and right after each of them
+            let kd = key_dir.display().to_string();
+            let mut key_fds: Vec<String> = Vec::new();
+            let mut in_key_dir: Vec<u32> = Vec::new();
+            for (i, l) in lines.iter().enumerate() {
+                let n = i as u32 + 1;
+                let call = l.trim_start_matches(|c: char| c == '[' || c == ']' || c == ' ' || c.is_ascii_digit() || c == 'p' || c == 'i' || c == 'd');
+                let on_fd = key_fds.iter().any(|fd| ["write(", "close(", "fsync(", "fdatasync(", "fchmod(", "fchown(", "ftruncate(", "pwrite64(", "writev("].iter().any(|c| call.starts_with(&format!("{}{}", c, fd)) && call[c.len() + fd.len()..].starts_with(|x: char| x == ',' || x == ')')));
+                if l.contains(&kd) || on_fd {
+                    in_key_dir.push(n);
+                }
+                if l.contains(&kd) && (call.starts_with("openat(") || call.starts_with("open(") || call.starts_with("creat(")) {
+                    if let Some(fd) = l.rsplit(" = ").next().map(|x| x.trim().to_string()).filter(|x| x.chars().all(|c| c.is_ascii_digit()) && !x.is_empty()) {
+                        key_fds.push(fd);
+                    }
+                }
+                if call.starts_with("close(") {
+                    key_fds.retain(|fd| !call.starts_with(&format!("close({})", fd)));
+                }
+            }
+            stats.class_n("sum_key-directory-syscalls-in-dry-runs", in_key_dir.len() as u64);
+            if std::env::var("VERIF_C08_DEBUG").is_ok() {
+                eprintln!("[c08-debug] {:?}/{:?}: total {} first_poll {} key-dir syscalls {:?}", sc, f, total, first_poll, in_key_dir);
+                for n in &in_key_dir {
+                    eprintln!("[c08-debug]   {} {}", n, lines[*n as usize - 1]);
+                }
+            }
             let chosen: Vec<u32> = if th {
                 all
             } else {
@@ -458,11 +494,40 @@ fn main() {
                 let step = (all.len() as f64 / want as f64).max(1.0);
                 let off = (h64(&(params.seed, pi)) % (step.ceil() as u64).max(1)) as f64;
                 let mut v: Vec<u32> = (0..want).map(|i| ((i as f64 * step + off) as usize).min(all.len() - 1)).map(|i| all[i]).collect();
+                for n in &in_key_dir {
+                    v.push(*n);
+                    v.push(*n + 1);
+                }
+                v.retain(|n| *n >= lo && *n <= hi);
+                v.sort();
                 v.dedup();
                 v
             };
+            // the syscall name of every line of the dry run, and which invocation of that syscall it is
+            let name_of = |l: &str| -> Option<String> {
+                let t = l.trim_start_matches(|c: char| c.is_ascii_digit() || c == ' ' || c == '[' || c == ']' || c == 'p' || c == 'i' || c == 'd');
+                let n: String = t.chars().take_while(|c| c.is_ascii_alphanumeric() || *c == '_').collect();
+                if !n.is_empty() && t[n.len()..].starts_with('(') { Some(n) } else { None }
+            };
+            let mut counts: std::collections::BTreeMap<String, u32> = std::collections::BTreeMap::new();
+            let mut addr: Vec<Option<(String, u32)>> = Vec::new();
+            for l in &lines {
+                addr.push(name_of(l).map(|n| {
+                    let c = counts.entry(n.clone()).or_insert(0);
+                    *c += 1;
+                    (n, *c)
+                }));
+            }
             for n in chosen {
-                plan.push(Case { scenario: *sc, faults: f.clone(), kill_at: Some(n) });
+                // beyond the end of the dry run: one more call of the last syscall seen (usually never reached: the run completes)
+                let call = match addr.get(n as usize - 1).cloned().flatten() {
+                    Some(c) => c,
+                    None => match addr.iter().rev().flatten().next() {
+                        Some((name, _)) => (name.clone(), counts.get(name).copied().unwrap_or(0) + (n - total)),
+                        None => continue,
+                    },
+                };
+                plan.push(Case { scenario: *sc, faults: f.clone(), kill_at: Some(n), kill_call: Some(call) });
             }
         }
     }
@@ -494,7 +559,7 @@ fn main() {
     stats.extra.insert("windows".into(), serde_json::json!(windows));
     stats.extra.insert("exhaustive_over_kill_points".into(), serde_json::json!(th && params.replay.is_none()));
     let _ = std::fs::remove_dir_all(&work);
-    let rule = "enumeration: scenario in {fresh latch, restart with the key on disk, rotation (the host names a key that is not in the store), local key truncated / garbage / valid JSON of another key / empty} x host-fault script in {none, first status / acquire / attest call fails with an error status, garbage body or reset, or the host latches the key but its attestation reply is lost} x kill point N = the N-th file-system, socket or descriptor-writing syscall (all of %file and %network plus read/write/close/fsync/fcntl/dup/...; the readiness-polling calls are left out) of the real KeyKeeper child (strace inject=...:signal=SIGKILL:when=N), N from the first status poll's connect to three past the last syscall of an uninjected dry run. thorough: every N; quick: a seeded stratified sample of 22 per (scenario, script). oracle in the parent: at the instant an attestation request ARRIVES the file <guid>.key exists, is complete JSON and holds the issued guid and key; after the kill no *.key file is truncated or corrupt (the scenario's own damaged file excepted while untouched); a key the host latched is in the store; a fresh, unkilled agent on that directory performs a signed request that verifies at the host, without requesting a new key when the latched one is in the store. non-trivial: the kill fell between the acquire answer and the attest answer, or the scenario starts from a damaged store; distinct by (scenario, script, N).";
+    let rule = "enumeration: scenario in {fresh latch, restart with the key on disk, rotation (the host names a key that is not in the store), local key truncated / garbage / valid JSON of another key / empty} x host-fault script in {none, first status / acquire / attest call fails with an error status, garbage body or reset, or the host latches the key but its attestation reply is lost} x kill point N = the N-th file-system, socket or descriptor-writing syscall (all of %file and %network plus read/write/close/fsync/fcntl/dup/...; the readiness-polling calls are left out) of the real KeyKeeper child, addressed to strace as 'the k-th invocation of syscall S' taken from line N of an uninjected dry run (strace counts injections per syscall: inject=S:signal=SIGKILL:when=k; the signal arrives on entering the call), N from the first status poll's connect to three past the last syscall of an uninjected dry run. thorough: every N; quick: a seeded stratified sample of 22 per (scenario, script) plus every syscall of the dry run that touches the key directory (by path or through a descriptor opened there) and its successor. oracle in the parent: at the instant an attestation request ARRIVES the file <guid>.key exists, is complete JSON and holds the issued guid and key; after the kill no *.key file is truncated or corrupt (the scenario's own damaged file excepted while untouched); a key the host latched is in the store; a fresh, unkilled agent on that directory performs a signed request that verifies at the host, without requesting a new key when the latched one is in the store. non-trivial: the kill fell between the acquire answer and the attest answer, or the scenario starts from a damaged store; distinct by (scenario, script, N).";
     let assumptions = ["process death only (SIGKILL at a syscall boundary): no power-loss / fsync reasoning", "the reference secure-channel host on loopback stands for the WireServer", "kill points are syscall boundaries: no externally visible effect lies between two syscalls"];
     stats.write_worker_files(&params.out, &params.prop, rule, &assumptions, t0.elapsed().as_secs_f64());
     std::process::exit(0);
